@@ -177,60 +177,77 @@ Section On.
   Qed.
 End On.
 
-Section Count.
-  Variable n : nat.
+(* a property P of the collected hit objects that every line satisfying Q keeps *)
+Section Gen.
+  Variable Q : str -> Prop.
+  Variable P : HitObject -> Prop.
+  Hypothesis line_keeps : forall st line st' r, Q line -> Forall P (ho_objects st) ->
+    parse_hit_objects st line = Done (st', r) -> Forall P (ho_objects st').
 
-  Definition ho_cps_inv (os : outcome HOD) : Prop :=
-    match os with Done s => Forall (cps_le n) (hod_objects s) | _ => True end.
-  Definition bm_cps_inv (os : outcome BMD) : Prop :=
-    match os with Done s => Forall (cps_le n) (hod_objects (bmd_ho s)) | _ => True end.
+  Definition ho_P_inv (os : outcome HOD) : Prop :=
+    match os with Done s => Forall P (hod_objects s) | _ => True end.
+  Definition bm_P_inv (os : outcome BMD) : Prop :=
+    match os with Done s => Forall P (hod_objects (bmd_ho s)) | _ => True end.
 
-  Lemma ho_cps_step sec os l : line_fits n l = true -> ho_cps_inv os ->
-    ho_cps_inv (fst (parser_of ho_parsers sec os l)).
+  Lemma ho_P_step sec os l : Q l -> ho_P_inv os -> ho_P_inv (fst (parser_of ho_parsers sec os l)).
   Proof.
     intros Hq Hos. destruct os as [s|w|]; [|destruct sec; exact I|destruct sec; exact I].
-    cbn [ho_cps_inv] in Hos. destruct s as [tp df ev last curve verts objs]. cbn [hod_objects] in Hos.
+    cbn [ho_P_inv] in Hos. destruct s as [tp df ev last curve verts objs]. cbn [hod_objects] in Hos.
     destruct sec; cbn [parser_of ho_parsers p_general p_editor p_metadata p_difficulty p_events p_timing_points
                        p_colors p_hit_objects p_variables p_catch_the_beat p_mania];
       unfold liftp, liftt, noop; cbn [obind fst].
-    - unfold hod_parse_general. destruct (tpd_parse_general _ l) as [g r]. cbn [obind fst ho_cps_inv hod_with_tp hod_objects]. exact Hos.
+    - unfold hod_parse_general. destruct (tpd_parse_general _ l) as [g r]. cbn [obind fst ho_P_inv hod_with_tp hod_objects]. exact Hos.
     - exact Hos.
     - exact Hos.
-    - unfold hod_parse_difficulty. destruct (parse_difficulty _ l) as [d r]. cbn [obind fst ho_cps_inv hod_objects]. exact Hos.
-    - unfold hod_parse_events. destruct (parse_events _ l) as [e r]. cbn [obind fst ho_cps_inv hod_objects]. exact Hos.
-    - unfold hod_parse_timing_points. destruct (tpd_parse_timing_points _ l) as [[t r]|w|]; cbn [obind fst ho_cps_inv]; try exact I.
+    - unfold hod_parse_difficulty. destruct (parse_difficulty _ l) as [d r]. cbn [obind fst ho_P_inv hod_objects]. exact Hos.
+    - unfold hod_parse_events. destruct (parse_events _ l) as [e r]. cbn [obind fst ho_P_inv hod_objects]. exact Hos.
+    - unfold hod_parse_timing_points. destruct (tpd_parse_timing_points _ l) as [[t r]|w|]; cbn [obind fst ho_P_inv]; try exact I.
       cbn [hod_with_tp hod_objects]. exact Hos.
     - exact Hos.
-    - unfold hod_parse_hit_objects. destruct (parse_hit_objects _ l) as [[c r]|w|] eqn:E; cbn [obind fst ho_cps_inv]; try exact I.
-      cbn [hod_with_core hod_objects]. eapply parse_objects_cps_le; [exact Hq| |exact E]. exact Hos.
+    - unfold hod_parse_hit_objects. destruct (parse_hit_objects _ l) as [[c r]|w|] eqn:E; cbn [obind fst ho_P_inv]; try exact I.
+      cbn [hod_with_core hod_objects]. eapply line_keeps; [exact Hq| |exact E]. exact Hos.
     - exact Hos.
     - exact Hos.
     - exact Hos.
   Qed.
 
-  Lemma bm_cps_step sec os l : line_fits n l = true -> bm_cps_inv os ->
-    bm_cps_inv (fst (parser_of bm_parsers sec os l)).
+  Lemma bm_P_step sec os l : Q l -> bm_P_inv os -> bm_P_inv (fst (parser_of bm_parsers sec os l)).
   Proof.
     intros Hq Hos. destruct os as [b|w|]; [|destruct sec; exact I|destruct sec; exact I].
-    cbn [bm_cps_inv] in Hos. destruct b as [ver ed md co ho]. destruct ho as [tp df ev last curve verts objs].
+    cbn [bm_P_inv] in Hos. destruct b as [ver ed md co ho]. destruct ho as [tp df ev last curve verts objs].
     cbn [bmd_ho hod_objects] in Hos.
     destruct sec; cbn [parser_of bm_parsers p_general p_editor p_metadata p_difficulty p_events p_timing_points
                        p_colors p_hit_objects p_variables p_catch_the_beat p_mania];
       unfold liftp, liftt, on_ho, noop; cbn [obind bmd_ho bmd_version bmd_editor bmd_metadata bmd_colors fst].
-    - unfold hod_parse_general. destruct (tpd_parse_general _ l) as [g r]. cbn [obind fst bm_cps_inv bmd_ho hod_with_tp hod_objects]. exact Hos.
-    - unfold bmd_parse_editor. destruct (parse_editor _ l) as [e r]. cbn [fst bm_cps_inv bmd_ho hod_objects]. exact Hos.
-    - unfold bmd_parse_metadata. destruct (parse_metadata _ l) as [m r]. cbn [fst bm_cps_inv bmd_ho hod_objects]. exact Hos.
-    - unfold hod_parse_difficulty. destruct (parse_difficulty _ l) as [d r]. cbn [obind fst bm_cps_inv bmd_ho hod_objects]. exact Hos.
-    - unfold hod_parse_events. destruct (parse_events _ l) as [e r]. cbn [obind fst bm_cps_inv bmd_ho hod_objects]. exact Hos.
-    - unfold hod_parse_timing_points. destruct (tpd_parse_timing_points _ l) as [[t r]|w|]; cbn [obind fst bm_cps_inv]; try exact I.
+    - unfold hod_parse_general. destruct (tpd_parse_general _ l) as [g r]. cbn [obind fst bm_P_inv bmd_ho hod_with_tp hod_objects]. exact Hos.
+    - unfold bmd_parse_editor. destruct (parse_editor _ l) as [e r]. cbn [fst bm_P_inv bmd_ho hod_objects]. exact Hos.
+    - unfold bmd_parse_metadata. destruct (parse_metadata _ l) as [m r]. cbn [fst bm_P_inv bmd_ho hod_objects]. exact Hos.
+    - unfold hod_parse_difficulty. destruct (parse_difficulty _ l) as [d r]. cbn [obind fst bm_P_inv bmd_ho hod_objects]. exact Hos.
+    - unfold hod_parse_events. destruct (parse_events _ l) as [e r]. cbn [obind fst bm_P_inv bmd_ho hod_objects]. exact Hos.
+    - unfold hod_parse_timing_points. destruct (tpd_parse_timing_points _ l) as [[t r]|w|]; cbn [obind fst bm_P_inv]; try exact I.
       cbn [bmd_ho hod_with_tp hod_objects]. exact Hos.
-    - unfold bmd_parse_colors. destruct (parse_colors _ l) as [c r]. cbn [fst bm_cps_inv bmd_ho hod_objects]. exact Hos.
-    - unfold hod_parse_hit_objects. destruct (parse_hit_objects _ l) as [[c r]|w|] eqn:E; cbn [obind fst bm_cps_inv]; try exact I.
-      cbn [bmd_ho hod_with_core hod_objects]. eapply parse_objects_cps_le; [exact Hq| |exact E]. exact Hos.
+    - unfold bmd_parse_colors. destruct (parse_colors _ l) as [c r]. cbn [fst bm_P_inv bmd_ho hod_objects]. exact Hos.
+    - unfold hod_parse_hit_objects. destruct (parse_hit_objects _ l) as [[c r]|w|] eqn:E; cbn [obind fst bm_P_inv]; try exact I.
+      cbn [bmd_ho hod_with_core hod_objects]. eapply line_keeps; [exact Hq| |exact E]. exact Hos.
     - exact Hos.
     - exact Hos.
     - exact Hos.
   Qed.
+
+  Theorem parsed_P lines : Forall Q lines -> Forall P (ho_parsed lines) /\ Forall P (bm_parsed lines).
+  Proof.
+    intros H. split.
+    - pose proof (state_after_invariant_on (fun _ => Done hod_create) ho_parsers
+                    Q ho_P_inv (fun _ => Forall_nil _) ho_P_step lines H) as Hi.
+      unfold ho_parsed. destruct (state_after _ ho_parsers lines) as [s|w|]; [exact Hi|constructor|constructor].
+    - pose proof (state_after_invariant_on (fun v => Done (bmd_create v)) bm_parsers
+                    Q bm_P_inv (fun _ => Forall_nil _) bm_P_step lines H) as Hi.
+      unfold bm_parsed. destruct (state_after _ bm_parsers lines) as [s|w|]; [exact Hi|constructor|constructor].
+  Qed.
+End Gen.
+
+Section Count.
+  Variable n : nat.
 
   Lemma lines_fit_Forall lines : lines_fit n lines = true -> Forall (fun l => line_fits n l = true) lines.
   Proof. unfold lines_fit. intros H. apply Forall_forall. apply forallb_forall. exact H. Qed.
@@ -239,13 +256,8 @@ Section Count.
   Theorem parsed_cps_le lines : lines_fit n lines = true ->
     Forall (cps_le n) (ho_parsed lines) /\ Forall (cps_le n) (bm_parsed lines).
   Proof.
-    intros H. apply lines_fit_Forall in H. split.
-    - pose proof (state_after_invariant_on (fun _ => Done hod_create) ho_parsers
-                    (fun l => line_fits n l = true) ho_cps_inv (fun _ => Forall_nil _) ho_cps_step lines H) as Hi.
-      unfold ho_parsed. destruct (state_after _ ho_parsers lines) as [s|w|]; [exact Hi|constructor|constructor].
-    - pose proof (state_after_invariant_on (fun v => Done (bmd_create v)) bm_parsers
-                    (fun l => line_fits n l = true) bm_cps_inv (fun _ => Forall_nil _) bm_cps_step lines H) as Hi.
-      unfold bm_parsed. destruct (state_after _ bm_parsers lines) as [s|w|]; [exact Hi|constructor|constructor].
+    intros H. apply lines_fit_Forall in H.
+    exact (parsed_P (fun l => line_fits n l = true) (cps_le n) (parse_objects_cps_le n) lines H).
   Qed.
 End Count.
 
